@@ -198,7 +198,7 @@ Proof.
   intros n src dst rank. rewrite move_cases. unfold spec_ranked. rewrite <- eff_rank_z.
   destruct (eff_rank n rank) as [r|] eqn:Er; cbn [option_map]; [|reflexivity].
   destruct (eff_rank_bounds _ _ _ Er) as [Hnr Hr1]. clear Er.
-  unfold move_perm. rewrite !norm_axes_mod by exact Hr1.
+  unfold move_perm. rewrite !norm_axes_zmod by exact Hr1.
   destruct (existsb (zout (Z.of_nat r)) src); [reflexivity|].
   destruct (existsb (zout (Z.of_nat r)) dst); [reflexivity|]. cbv zeta.
   set (s := map (fun x => (x mod Z.of_nat r)%Z) src). set (d := map (fun x => (x mod Z.of_nat r)%Z) dst).
